@@ -11,6 +11,7 @@ import Driver.Seq
 import Driver.BS
 import Driver.Crash
 import Driver.Sched
+import Driver.Res
 
 open Driver
 
@@ -22,6 +23,7 @@ inductive Eng where
   | bs (s : Driver.BS.St)
   | crash (s : Driver.Crash.St)
   | sched (s : Driver.Sched.St)
+  | res (s : Driver.Res.St)
 
 structure DState where
   eng : Eng := .none
@@ -44,6 +46,7 @@ def newEngine (hdr : Args) : Eng :=
   | "bs" => .bs {}
   | "crash" => .crash {}
   | "sched" => .sched {}
+  | "res" => .res {}
   | _ => .none
 
 def stepEng (e : Eng) (l : Line) : Eng × List Msg :=
@@ -55,6 +58,7 @@ def stepEng (e : Eng) (l : Line) : Eng × List Msg :=
   | .bs s => let (s', m) := Driver.BS.step s l; (.bs s', m)
   | .crash s => let (s', m) := Driver.Crash.step s l; (.crash s', m)
   | .sched s => let (s', m) := Driver.Sched.step s l; (.sched s', m)
+  | .res s => let (s', m) := Driver.Res.step s l; (.res s', m)
 
 partial def loop (h : IO.FS.Stream) (out : IO.FS.Stream) (st : DState) : IO Unit := do
   let line ← h.getLine
